@@ -7,6 +7,11 @@ ALL = ["C%02d" % i for i in range(1, 21)]
 
 # id -> (category, technique, level text, level note, design ref, engine)
 CHECKS = {
+ "C03": ("model_checking",
+         "bounded-exhaustive enumeration: BFS tile-set states plus all non-empty subsets of small grids x 5 formats; advertised pyramid compared with the set of tiles lookups return",
+         "Every BFS tile set to depth 2, every non-empty subset of a 5x2 (quick) / 5x3 (thorough) grid at z=3 and of a 3x3 / 4x3 grid at z=4 rows 9..11, single tiles at level 0 and the far corner of level 31, zoom gaps, each written to all five formats by the repository's writers and re-opened: every tile found by lookups over a probe superset must lie in the advertised pyramid, and for mbtiles/pmtiles/tar/directory every level box must equal the bounding box of the tiles (empty iff none). Pipelines over sources with different pyramids: containment.",
+         "Exactness is asserted only for the four formats the property names; for versatiles and pipelines only containment. Probe superset = all coordinates z<=3, the tile-set alphabet, the 8 neighbours of stored tiles and level corners.",
+         "3/C03", "E-enum"),
  "C02": ("model_checking",
          "bounded-exhaustive enumeration of (source, box) pairs against the lookup oracle: all boxes at low zoom, all boxes over a border alphabet at high zoom, all empty encodings; streams executed on a real multi-thread runtime",
          "For 55 sources (five container readers over six representative tile sets written by the repository's writers, the converting reader with all 4 flag combinations restricted and unrestricted over a MemSource and a versatiles file, eight pipelines incl. overlays, filters, nestings, from_debug and a real file) every box at z<=2 (quick) / z<=3 (thorough), every box with corners from {0,255,256,511,coverage edges (+-1),max} at the sets' high zoom levels and every empty encoding at levels 0,1,7,8,9,31 is streamed; the multiset of streamed tiles must equal the lookups inside the box, nothing outside, no panic.",
